@@ -266,6 +266,7 @@ func randCaseName(c *Ctx, s string) string {
 }
 
 func propC08(c *Ctx) {
+	propScaleValues(c, "C08")
 	pool := valuePool()
 	// calendar functions (DayOfWeek) read a date-time in its own zone; the model has instants only, so calls
 	// with a zoned argument are checked against the direct oracle (the week day in the value's own zone)
@@ -709,6 +710,7 @@ func propC01(c *Ctx) {
 			runEvalCase(c, e, expr, m, binds, fmt.Sprintf("tree:mode%d", mode))
 		}
 	}
+	propScaleExpressions(c, "C01")
 	propLiterals(c)
 	// operator-pair matrix: a op1 b op2 c for every ordered pair of binary operators
 	vals := []string{"7", "2", "3"}
